@@ -4,10 +4,12 @@ package main
 import (
 	"fmt"
 	"os"
+	"strconv"
 
 	"verif/mc/core"
 	"verif/mc/props/c17"
 	"verif/mc/props/c18"
+	"verif/mc/props/c20"
 )
 
 type prop struct {
@@ -17,6 +19,7 @@ type prop struct {
 }
 
 var props = map[string]prop{
+	"C20": {"model_checking", c20.Main, func(r *core.Run, mode string, raw []byte) { c20.Replay(r, mode, raw) }},
 	"C18": {"fault_enumeration", c18.Main, func(r *core.Run, mode string, raw []byte) { c18.Replay(r, mode, raw) }},
 	"C17": {"model_checking", c17.Main, func(r *core.Run, mode string, raw []byte) { c17.Replay(r, raw) }},
 }
@@ -27,6 +30,12 @@ func main() {
 		os.Exit(2)
 	}
 	id := os.Args[1]
+	if id == "C20-race" {
+		g, _ := strconv.Atoi(os.Args[4])
+		reps, _ := strconv.Atoi(os.Args[5])
+		c20.RaceWorker(os.Args[2], os.Args[3], g, reps)
+		return
+	}
 	p, ok := props[id]
 	if !ok {
 		fmt.Fprintf(os.Stderr, "unknown property %s\n", id)
